@@ -12,7 +12,15 @@ func init() {
 		}
 		return p.genCrash("C01")
 	}
-	generators["C02"] = func(p *pg) (Config, Plan) { return p.genCrash("C02") }
+	// C02 speaks of what a reopen returns; one run in 8 reaches the reopen through a failed call whose rollback
+	// may leave stale but CRC-valid frames in the file (seeded C02i) instead of through a torn write
+	generators["C02"] = func(p *pg) (Config, Plan) {
+		if p.r.Intn(8) == 0 {
+			c := p.baseConfig("C02")
+			return c, p.errChains(&c)
+		}
+		return p.genCrash("C02")
+	}
 	generators["C03"] = func(p *pg) (Config, Plan) {
 		if p.r.Intn(8) == 0 {
 			c := p.baseConfig("C03")
